@@ -517,6 +517,16 @@ def canon_cidr_strings(rng, nets):
 
 # --------------------------------------------------------------------------- helpers
 
+def new_config_options(facts):
+    """configuration keys the loader of the tree under test accepts that the pinned list (checks/C10.config_options.json,
+    taken from the validated tree) does not know: a new opt-in option is one more way to reach an effect the property
+    constrains, so the request streams are run again on a loader-built state with every such option switched on"""
+    import os
+    pinned = json.load(open(os.path.join(os.path.dirname(os.path.abspath(__file__)), "C10.config_options.json")))
+    known = set(o["path"] for o in pinned)
+    return [o for o in facts.get("config_options", []) if o["path"] not in known]
+
+
 def drv(ctx, mode, ops):
     """kmdriver on a possibly empty op list"""
     return c.run_driver(ctx, mode, ops) if ops else []
